@@ -167,6 +167,44 @@ static void one_case(unsigned depth, bool cached_first) {
     aws_cbor_encoder_destroy(e);
 }
 
+
+/* long runs through ONE decoder: state that a skip leaves behind in the decoder (nesting counters, caches) must not build
+ * up - N tagged items skipped one after the other, and one array of N tagged items skipped as a whole (N = 1000) */
+static void long_runs(void) {
+    enum { N = 1000 };
+    struct aws_allocator *a = &s_alloc;
+    for (int as_array = 0; as_array < 2; ++as_array) {
+        struct aws_cbor_encoder *e = aws_cbor_encoder_new(a);
+        if (as_array) aws_cbor_encoder_write_array_start(e, N);
+        for (int i = 0; i < N; ++i) {
+            aws_cbor_encoder_write_tag(e, (uint64_t)(i % 3) + 1);
+            if (i % 2) { aws_cbor_encoder_write_array_start(e, 1); aws_cbor_encoder_write_uint(e, (uint64_t)i); }
+            else aws_cbor_encoder_write_uint(e, (uint64_t)i * 1000003u);
+        }
+        aws_cbor_encoder_write_uint(e, 99); /* sentinel */
+        struct aws_byte_cursor all = aws_cbor_encoder_get_encoded_data(e);
+        struct aws_cbor_decoder *d = aws_cbor_decoder_new(a, all);
+        int skips = as_array ? 1 : N;
+        for (int i = 0; i < skips; ++i) {
+            if (aws_cbor_decoder_consume_next_whole_data_item(d)) {
+                printf("FAIL long run (%s): skip %d of %d reported an error on well-formed data\n", as_array ? "array of 1000 tagged items" : "1000 tagged items in a row", i + 1, skips);
+                fflush(stdout);
+                s_fails++;
+                break;
+            }
+        }
+        uint64_t v = 0;
+        if (!s_fails && (aws_cbor_decoder_pop_next_unsigned_int_val(d, &v) || v != 99 || aws_cbor_decoder_get_remaining_length(d) != 0)) {
+            printf("FAIL long run (%s): the element after the skipped items is not the sentinel\n", as_array ? "array" : "sequence");
+            fflush(stdout);
+            s_fails++;
+        }
+        s_cases++;
+        aws_cbor_decoder_destroy(d);
+        aws_cbor_encoder_destroy(e);
+    }
+}
+
 int main(int argc, char **argv) {
     uint64_t seed = argc > 1 ? strtoull(argv[1], NULL, 10) : 1;
     unsigned long samples = argc > 2 && strcmp(argv[2], "thorough") == 0 ? 2000000ul : 200000ul;
@@ -177,6 +215,7 @@ int main(int argc, char **argv) {
         do { one_case(depth, (s_cases & 1) != 0); } while (advance_counter() && s_fails == 0 && s_cases < 40000000ul);
     }
     unsigned long exhaustive = s_cases;
+    if (s_fails == 0) long_runs();
     /* sampled: depth up to 12, up to 3 children */
     s_random = true; s_max_children = 3; s_rng = seed * 0x9E3779B97F4A7C15ull + 1;
     for (unsigned long i = 0; i < samples && s_fails == 0; ++i) one_case(1 + (unsigned)(rnd() % 12), (rnd() & 1) != 0);
